@@ -3,7 +3,8 @@
 (* C12 -- the position space of restored asts.  Each record is one restorer *)
 (* (one FileSet) after restoring a sequence of files:                       *)
 (*   {"files":[{"base","size","lines":[..],"positions":[..],"comments":[..],*)
-(*              "rankR":[labels],"rankF":[labels],"reprint":bool}...]}      *)
+(*              "rankR":[labels],"rankF":[labels],"reprint":bool,           *)
+(*              "phantom":[labels]}...]}                                     *)
 (* positions: every position the restorer assigned (token fields, leaf      *)
 (* strings, comments); rankR / rankF: the labels of all position fields     *)
 (* valid in both the restored ast and a fresh parse of the printed text,    *)
@@ -34,6 +35,9 @@ CommentsSorted == Live => \A i \in DOMAIN Rec.files : LET cs == Rec.files[i].com
             \A k \in 1..(Len(cs) - 1) : cs[k] < cs[k + 1]
 \* the relative order of all token and comment positions equals that of a fresh parse
 RankEqual == Live => \A i \in DOMAIN Rec.files : Rec.files[i].rankR = Rec.files[i].rankF
+\* ... of ALL positions: the restored ast carries no token position that a fresh parse of its print lacks
+\* (a closing parenthesis position on a declaration that is printed without parentheses, ...)
+NoPhantom == Live => \A i \in DOMAIN Rec.files : Rec.files[i].phantom = <<>>
 \* the restored ast can be printed repeatedly
 Reprintable == Live => \A i \in DOMAIN Rec.files : Rec.files[i].reprint
 
